@@ -61,7 +61,8 @@ def mkCfg (d : DSt) (nsubs : Nat) (rows : List BehRow) : Cfg :=
     beh := behOf rows
     maxRetries := Nuts.Facts.C14.maxRetries
     failedThreshold := Nuts.Facts.C14.retriesFailedThreshold
-    skipPresent := Nuts.Facts.C14.writePayloadSkipsPresent
+    skipPresent := Nuts.Facts.C14.writePayloadReturnsEarlyWhenPresent
+    notifyGuarded := Nuts.Facts.C14.writePayloadNotifyGuarded
     writeBackSkipsGone := Nuts.Facts.C14.writeBackSkipsGone
     storageFaultEndsLoop := Nuts.Facts.C14.storageFaultEndsLoop }
 
@@ -228,9 +229,13 @@ def step (d : DSt) (j : Json) : DSt × List String :=
             else fin σ2 "ok"
         | .skipped =>
           if jBool j "drop" then fin (crashSt σ1) "stop"
-          else if c.nSubs > privateSub then
-            fin (finishedExt σ1 privateSub ref (jBool j "fail")) (if jBool j "fail" then "ok+finerr" else "ok")
-          else fin σ1 "ok"
+          else
+            -- guarded (the source today): nothing is pending; unguarded: the AfterCommit hook notifies again
+            let σ2 := if c.notifyGuarded then σ1 else afterAll c σ1 (ordersOf j) 1
+            if stoppedIn old σ2 then fin σ2 "stop"
+            else if c.nSubs > privateSub then
+              fin (finishedExt σ2 privateSub ref (jBool j "fail")) (if jBool j "fail" then "ok+finerr" else "ok")
+            else fin σ2 "ok"
         | _ => fin σ1 (showStatus st)
       | "fin" =>
         let s := jNat j "s"
